@@ -4,8 +4,12 @@ package c20
 import (
 	"crypto/sha256"
 	"encoding/hex"
+	"encoding/json"
 	"fmt"
 	"math/rand"
+	"os"
+	"os/exec"
+	"path/filepath"
 	"runtime"
 	"sort"
 	"strings"
@@ -29,7 +33,7 @@ func (*prop) Level() string { return "exploration" }
 func (*prop) Rule() string {
 	return "(a) inputs: every irregular word of both tables and every literal uninflected word x {lower, UPPER, Title} x prefixes ending in an ASCII boundary character (space - . / + : and longer prefixes with spaces, digits, Unicode) x {Pluralize, Singularize}; " +
 		"for totality/purity only: prefixes ending in a non-ASCII letter, Unicode case-fold twins (long s, Kelvin sign), empty, non-ASCII and seeded long random strings. " +
-		"Oracles: no panic; f(x) twice equal; f(p+w) == p+f(w) for every boundary prefix p and irregular w; result is valid UTF-8 when the input is. " +
+		"Oracles: no panic; f(x) twice equal; f(p+w) == p+f(w) for every boundary prefix p and irregular w; result is valid UTF-8 when the input is; a fresh child process that inflects the same inputs (all case variants of every table word, with and without prefixes) in the reverse order gives the same answers. " +
 		"(b) schedules: rounds in which G goroutines leave a barrier together and call both operations on a small shared key set plus keys fresh to that round (first-insert contention on the memo cache every round), " +
 		"GOMAXPROCS in {2,4,16}, under the race detector; the call/return history (one logical clock) is checked directly (every return for a key equals the sequentially known value prefix+f(word)) " +
 		"and per key against a write-once-register model with porcupine. Non-trivial = input with a boundary prefix and an irregular word, or a concurrent round; distinct by 64-bit hash of the input / of the round's completion order."
@@ -82,6 +86,7 @@ func (*prop) Cases(seed int64, tier string) []core.Case {
 	for i := 0; i < nrand; i++ {
 		cs = append(cs, core.MkCase("random", map[string]int{"n": randN}))
 	}
+	cs = append(cs, core.MkCase("order", nil))
 	for _, procs := range []int{2, 4, 16} {
 		for k := 0; k < 4; k++ {
 			cs = append(cs, core.MkCase("concurrent", map[string]int{"procs": procs, "rounds": rounds, "g": 32}))
@@ -423,6 +428,99 @@ func (p *prop) runConcurrent(c core.Case, res *core.Result) {
 	res.Count("distinct_completion_orders", int64(len(orders)))
 }
 
+// ---- order independence: a fresh process that sees the same inputs in the reverse order must give the same answers
+// (catches a memo cache keyed too coarsely, e.g. by the lower-cased input)
+
+func inflectAll(inputs []string) [][2]string {
+	out := make([][2]string, len(inputs))
+	for i, s := range inputs {
+		core.Guard(func() { out[i][0] = inflector.Pluralize(s) })
+		core.Guard(func() { out[i][1] = inflector.Singularize(s) })
+	}
+	return out
+}
+
+func init() {
+	core.RegisterHelper("c20order", func(argFile string) {
+		b, err := os.ReadFile(argFile)
+		if err != nil {
+			panic(err)
+		}
+		var inputs []string
+		if err := json.Unmarshal(b, &inputs); err != nil {
+			panic(err)
+		}
+		ob, _ := json.Marshal(inflectAll(inputs))
+		_ = os.WriteFile(argFile+".out", ob, 0o644)
+	})
+}
+
+func (p *prop) runOrder(c core.Case, w *core.Worker, res *core.Result) {
+	r := rand.New(rand.NewSource(c.Seed))
+	var inputs []string
+	for _, o := range ops {
+		for _, w0 := range o.irr {
+			for _, v := range caseVariants(w0) {
+				inputs = append(inputs, v, "old "+v, "OLD-"+v, strings.ToLower("Old "+v))
+			}
+		}
+	}
+	for _, w0 := range uninflectedWords {
+		inputs = append(inputs, caseVariants(w0)...)
+	}
+	for _, s := range []string{"status", "Status", "STATUS", "quiz", "Quiz", "ox", "Ox", "OX", "bus", "Bus", "BUS", "İstanbul person", "istanbul person", "ISTANBUL PERSON"} {
+		inputs = append(inputs, s)
+	}
+	r.Shuffle(len(inputs), func(i, j int) { inputs[i], inputs[j] = inputs[j], inputs[i] })
+	here := inflectAll(inputs)
+	rev := make([]string, len(inputs))
+	for i, s := range inputs {
+		rev[len(inputs)-1-i] = s
+	}
+	dir, err := os.MkdirTemp(w.Scratch, "c20-")
+	if err != nil {
+		res.Inconclusive = append(res.Inconclusive, err.Error())
+		return
+	}
+	defer os.RemoveAll(dir)
+	argFile := filepath.Join(dir, "in.json")
+	ib, _ := json.Marshal(rev)
+	_ = os.WriteFile(argFile, ib, 0o644)
+	cmd := exec.Command(os.Getenv("VERIF_EXE"), "-helper", "c20order", argFile)
+	if ob, err := cmd.CombinedOutput(); err != nil {
+		res.Inconclusive = append(res.Inconclusive, fmt.Sprintf("helper process failed: %v %s", err, string(ob)))
+		return
+	}
+	var there [][2]string
+	ob, _ := os.ReadFile(argFile + ".out")
+	if err := json.Unmarshal(ob, &there); err != nil || len(there) != len(inputs) {
+		res.Inconclusive = append(res.Inconclusive, "helper output unreadable")
+		return
+	}
+	first, firstThere := map[string][2]string{}, map[string][2]string{}
+	for i, s := range inputs {
+		if _, ok := first[s]; !ok {
+			first[s] = here[i]
+		}
+	}
+	for i, s := range rev {
+		if _, ok := firstThere[s]; !ok {
+			firstThere[s] = there[i]
+		}
+	}
+	for s, a := range first {
+		res.Evals++
+		res.NonTrivial("order|" + s)
+		b := firstThere[s]
+		for k := 0; k < 2; k++ {
+			if a[k] != b[k] {
+				res.Fail("order-independent", ops[k].name, fmt.Sprintf("%s(%q) = %q in this process but %q in a fresh process that saw the same inputs in reverse order", ops[k].name, s, a[k], b[k]), s)
+			}
+		}
+	}
+	res.Count("order_independence_inputs_compared", int64(len(first)))
+}
+
 var registerModel = porcupine.Model{
 	Partition: func(history []porcupine.Operation) [][]porcupine.Operation {
 		m := map[regIn][]porcupine.Operation{}
@@ -457,6 +555,8 @@ func (p *prop) Run(c core.Case, w *core.Worker) core.Result {
 		p.runRandom(c, &res)
 	case "concurrent":
 		p.runConcurrent(c, &res)
+	case "order":
+		p.runOrder(c, w, &res)
 	}
 	return res
 }
